@@ -39,11 +39,11 @@ ASSUMPTIONS = [
 # Known candidate defects: the generator avoids these shapes by construction while the flag is True
 # (a case carrying "raw": true is executed as written; the defect replays use that).
 EXCLUDE_KNOWN = {
-    "remesh/array-only-mapper-with-unset": True,
-    "resample/sum-interval-inside-one-bin": True,
-    "resample/sum-modifies-array-input": True,
-    "resample/sum-none-in-partial-bin": True,
-    "resample/interval-starts-below-first-mesh-point": True,
+    "remesh/array-only-mapper-with-unset": False,  # repaired in /repo (fix: commit); searched again
+    "resample/sum-interval-inside-one-bin": False,  # repaired in /repo (fix: commit); searched again
+    "resample/sum-modifies-array-input": False,  # repaired in /repo (fix: commit); searched again
+    "resample/sum-none-in-partial-bin": False,  # repaired in /repo (fix: commit); searched again
+    "resample/interval-starts-below-first-mesh-point": False,  # repaired in /repo (fix: commit); searched again
 }
 
 if os.environ.get("VP_C11_NO_EXCLUDE") == "1":  # debugging aid: run the generators over the excluded shapes too
